@@ -1,7 +1,6 @@
 package c20
 
 import (
-	"fmt"
 	"os"
 	"path/filepath"
 	"strconv"
@@ -10,9 +9,7 @@ import (
 
 	"pgregory.net/rapid"
 
-	"verif/internal/chanrewrite"
 	"verif/internal/e2"
-	"verif/internal/gorun"
 	"verif/internal/pkit"
 )
 
@@ -57,26 +54,7 @@ func TestProp(t *testing.T) {
 		s2 := e2.ConcurrentSubject()
 		e2.RunCase(c, rt, s2, e2.Options{Property: prop, Harness: "c20m", Checks: modelChecks(c), Patterns: []string{"./p", "./p2"}, TestRun: "^TestHModel$",
 			Env: []string{"VERIF_MODEL_SHARD=" + strconv.Itoa(c.Shard%c.NShards), "VERIF_MODEL_NSHARDS=" + strconv.Itoa(c.NShards)},
-			AfterGenerate: func(dir string) error {
-				for _, pkg := range []string{"p", "p2"} {
-					_, model, declined, err := chanrewrite.ModelFor(dir, pkg)
-					if err != nil {
-						return err
-					}
-					if len(declined) > 0 {
-						c.Rep.Class("model-rewrite-declined")
-						return fmt.Errorf("the rewriter declined package %s (%v): only the real-runtime engine ran", pkg, declined)
-					}
-					if err := gorun.WriteFiles(dir, map[string]string{"model" + pkg + "/model.go": model}); err != nil {
-						return err
-					}
-				}
-				b, err := os.ReadFile(filepath.Join(gorun.VerifDir(), "subjectlib", "sched", "sched.go"))
-				if err != nil {
-					return err
-				}
-				return gorun.WriteFiles(dir, map[string]string{"sched/sched.go": string(b)})
-			}})
+			AfterGenerate: e2.ModelAfterGenerate(c)})
 	})
 }
 
